@@ -109,6 +109,20 @@ def main():
         p = os.path.join(src, f)
         if os.path.isfile(p) and os.path.getsize(p) < 200000:
             shutil.copy(p, dst)
+    old = os.path.join(dst, "meta.json")
+    if os.path.exists(old):
+        try:
+            om = json.load(open(old))
+            hist = om.get("history", [])
+            if "evaluation" in om:
+                hist.append({"verif_commit": om["evaluation"].get("verif_snapshot", "live tree"), "detected": om.get("detected"),
+                             "checks": {c: {"rc": v.get("rc"), "lines": v.get("lines", [])[:3]} for c, v in om["evaluation"].get("checks", {}).items()}})
+            meta["history"] = hist
+            for k2 in ("confirmed_note",):
+                if k2 in om:
+                    meta[k2] = om[k2]
+        except Exception:
+            pass
     meta["evaluation"] = res
     confirmed = res.get("patch_applies") and res.get("builds") and res.get("tests_pass") and res.get("demo_clean", {}).get("rc") == 0 and res.get("demo_mutated", {}).get("rc") not in (0, None)
     meta["confirmed"] = bool(confirmed)
